@@ -107,11 +107,28 @@ def run_case(rec, Kx, Ky, N, per, orient, op, li, seed, pre=None):
         rec.violation("constructor", "raise:" + exc_sig(e), case, "a Grid", f"{type(e).__name__}: {e}"[:200])
         return
     playout = LAYOUTS[PARTNER_LAYOUT[li]]
+    single = li == 4
+    if single:
+        # the component is held in single precision, the partner in double precision with values that single
+        # precision cannot represent: what crosses an axis-swapping link must arrive unrounded
+        fields = []
+        for s_ in (seed, seed + 1):
+            U, V = global_uv(D, s_)
+            U, V = U + 0.1, V - 0.3
+            u = np.empty((nf, N, N)); v = np.empty((nf, N, N))
+            for f in range(nf):
+                for jp in range(N):
+                    for ip in range(N):
+                        u[f, jp, ip] = D.edge_val(U, V, f, ip, jp, "X")
+                        v[f, jp, ip] = D.edge_val(U, V, f, ip, jp, "Y")
+            fields.append((U, V, u, v))
     ua = layout_da(fields[0][2], "X", layout, fields[1][2])
     va = layout_da(fields[0][3], "Y", layout, fields[1][3])
     # the partner handed over as other_component uses another dimension order than the component
     ua_p = layout_da(fields[0][2], "X", playout, fields[1][2])
     va_p = layout_da(fields[0][3], "Y", playout, fields[1][3])
+    if single:
+        ua, va = ua.astype(np.float32), va.astype(np.float32)
     try:
         ru = getattr(g, op)({"X": ua}, "X", other_component={"Y": va_p})
         rv = getattr(g, op)({"Y": va}, "Y", other_component={"X": ua_p})
@@ -124,7 +141,7 @@ def run_case(rec, Kx, Ky, N, per, orient, op, li, seed, pre=None):
         rec.violation("vector-op", "dims", case, edims, [list(ru.dims), list(rv.dims)])
         return
     results = [(ru, rv)]
-    if "t" not in layout:
+    if "t" not in layout and not single:
         # the same array objects, overwritten in place with another field, on the same Grid: the
         # answer must follow the current values
         try:
@@ -138,7 +155,8 @@ def run_case(rec, Kx, Ky, N, per, orient, op, li, seed, pre=None):
             rec.violation("vector-op", "raise-on-second-call:" + exc_sig(e), case, "array", f"{type(e).__name__}: {e}"[:200])
             return
     fn = (lambda a, b: b - a) if op == "diff" else (lambda a, b: 0.5 * (a + b))
-    for ti in (0, 1):
+    r32 = (lambda x: float(np.float32(x))) if single else (lambda x: x)
+    for ti in ((0,) if single else (0, 1)):
         U, V, u, v = fields[ti]
         if "t" in layout:
             du = ru.isel(t=ti).transpose("face", "y", "x").values
@@ -151,17 +169,33 @@ def run_case(rec, Kx, Ky, N, per, orient, op, li, seed, pre=None):
         for f in range(nf):
             for jp in range(N):
                 for ip in range(N):
-                    b = u[f, jp, ip + 1] if ip + 1 < N else D.edge_val(U, V, f, ip + 1, jp, "X")
-                    eu[f, jp, ip] = fn(u[f, jp, ip], 0.0 if b is None else b)
-                    d = v[f, jp + 1, ip] if jp + 1 < N else D.edge_val(U, V, f, ip, jp + 1, "Y")
-                    ev[f, jp, ip] = fn(v[f, jp, ip], 0.0 if d is None else d)
+                    # values read from the component's own array are single-precision values when `single`;
+                    # values that cross an axis-swapping link come from the (double precision) partner
+                    if ip + 1 < N:
+                        b = r32(u[f, jp, ip + 1])
+                    else:
+                        b = D.edge_val(U, V, f, ip + 1, jp, "X")
+                        lk = table[f].get("X", (None, None))[1]
+                        if b is not None and lk is not None and lk[1] == "X":
+                            b = r32(b)
+                    eu[f, jp, ip] = fn(r32(u[f, jp, ip]), 0.0 if b is None else b)
+                    if jp + 1 < N:
+                        d = r32(v[f, jp + 1, ip])
+                    else:
+                        d = D.edge_val(U, V, f, ip, jp + 1, "Y")
+                        lk = table[f].get("Y", (None, None))[1]
+                        if d is not None and lk is not None and lk[1] == "Y":
+                            d = r32(d)
+                    ev[f, jp, ip] = fn(r32(v[f, jp, ip]), 0.0 if d is None else d)
+        if single:
+            du, dv = du.astype(float), dv.astype(float)
         if not np.array_equal(du, eu):
             rec.violation("vector-op", f"{op}-X-component" + ("-swapped" if swapped else "") + ("-stale-after-in-place-update" if ti == 1 and "t" not in layout else ""), case, eu, du)
             return
         if not np.array_equal(dv, ev):
             rec.violation("vector-op", f"{op}-Y-component" + ("-swapped" if swapped else "") + ("-stale-after-in-place-update" if ti == 1 and "t" not in layout else ""), case, ev, dv)
             return
-        if op == "diff" and all(per):
+        if op == "diff" and all(per) and not single:
             gdiv = (np.roll(U, -1, axis=1) - U) + (np.roll(V, -1, axis=0) - V)
             if not np.array_equal(D.cut(gdiv), du + dv):
                 rec.violation("divergence", "not-global-divergence", case, D.cut(gdiv), du + dv)
